@@ -66,6 +66,9 @@ def run_C02(tier, seed):
     fg, _ = stages.pick_scenarios("forge", tier, seed, lambda s: nm_of(s) <= 16, 10 if q else 100, prop="C02")
     res.append(stages.trace_stage("C02", "forged-proofs", fg, seed, module="TraceProve", consts={"Strict": "FALSE", "CheckArith": "TRUE", "CrossFresh": "FALSE"}, calls="prove"))
     res.append(stages.trace_stage("C02", "forged-verify", fg, seed, module="TraceVerify", calls="verify"))
+    # the relation is only meaningful over independent generators: every generator the verifier weights is the documented,
+    # pairwise distinct derivation (up to 1024 parties)
+    res.append(stages.generators_stage("C02", tier, seed, threads=0))
     res.append(stages.api_stage("C02", "batch", tier, seed, groups=("fm",)))
     return res
 
